@@ -130,6 +130,36 @@ def gen_disc_cycle_case(rng, cid, dbdir=None):
     cb.end()
     return cb
 
+def gen_stranded_case(rng, cid, dbdir=None):
+    """C05 (S37): R reads the leaf L through a DISCOVERED dependency; L has a record from an earlier build, changes, R is built
+    and the build is cancelled at one of its first points - in some of them after R completed and before L was brought up
+    to date; L then changes BACK to the recorded value and R is built again (same engine, or restarted from the database):
+    the stale value of R must not look current."""
+    prog = gen_program(rng, cyclic=False, allow=("follow", "dyn", "force", "out"))
+    R = rng.choice(DERIVED); L, A = rng.sample(LEAVES, 2)
+    prog[R] = dict(prog[R]); prog[R]["valid"] = True; prog[R]["out"] = False; prog[R]["force"] = False
+    prog[R]["start"] = [dict(k=A, kind=rng.choice(["in", "single"]))]; prog[R]["dynOn"] = "none"; prog[R]["dynThen"] = []; prog[R]["dynElse"] = []
+    prog[R]["disc"] = [L]; prog[R]["proj"] = [A] if prog[R]["start"][0]["kind"] == "in" else []
+    for k in DERIVED:
+        if k != R:
+            prog[k] = dict(prog[k]); prog[k]["start"] = [r for r in prog[k]["start"] if r["k"] in LEAVES] or [dict(k="a", kind="in")]
+            prog[k]["dynOn"] = "none"; prog[k]["dynThen"] = []; prog[k]["dynElse"] = []; prog[k]["disc"] = []
+            prog[k]["proj"] = [r["k"] for r in prog[k]["start"] if r["kind"] == "in"]
+    ext = {l: rng.randrange(2) for l in LEAVES}; ext.update({k: 0 for k in DERIVED})
+    cb = CaseBuilder(cid, prog, ext)
+    usedb = dbdir is not None and rng.random() < 0.5
+    dbpath = "%s/%s.db" % (dbdir, cid) if usedb else None
+    cb.engine(db=dbpath)
+    cb.build(L, mode="sync", seed=rng.randrange(1 << 30))
+    old = cb.ext[L]; cb.mutate(L, 1 - old)
+    cb.build(R, mode=rng.choice(["sync", "det"]), seed=rng.randrange(1 << 30), defer=100, cancel=rng.randint(3, 22), verify=1)
+    cb.reset()
+    if usedb and rng.random() < 0.5: cb.engine(db=dbpath)
+    cb.mutate(L, old)
+    cb.build(R, mode="sync", seed=rng.randrange(1 << 30), verify=1)
+    cb.end()
+    return cb
+
 def rule_line(k, r):
     def reqs(l): return ",".join("%s:%s" % (x["k"], x["kind"]) for x in l)
     return ("rule %s leaf=%d sig=%d base=%d force=%d valid=%d out=%d start=%s dyn=%s then=%s else=%s disc=%s proj=%s" %
